@@ -510,7 +510,35 @@ pub fn analyse(
                         continue;
                     }
                 }
-                // a later step of a multi-request task (SELECT then OPERATE, time synchronisation)
+                // a later step of a multi-request task (SELECT then OPERATE, time synchronisation): the task moved on from its
+                // previous request, which is a completion of that request - only an acceptable stream may bring it about
+                if let Some(prev) = outstanding.get(dest).filter(|r| !r.uncertain && r.order.is_some()) {
+                    if task_alive.get(dest).copied().unwrap_or(false) {
+                        let objects_matter = matches!(prev.func, 1 | 3 | 4 | 5 | 13 | 14 | 23);
+                        let ok = txs.iter().any(|x| {
+                            !x.uns
+                                && x.src == *dest
+                                && x.order > prev.pos
+                                && x.t <= written
+                                && x.bytes[0] & 0x40 != 0
+                                && (!x.must_reject
+                                    || (!objects_matter
+                                        && (x.kind == "objects-replaced" || x.kind == "truncated")
+                                        && x.bytes.len() >= 4))
+                        });
+                        bump("probe.step_of_multi_request_task_judged");
+                        if !ok {
+                            violation = Some(Violation::new(
+                                "C15/task-advanced-without-acceptable-response",
+                                format!("func={}", prev.func),
+                                format!(
+                                    "the task for {} wrote its next request (function {}, seq {}) at {} ms although no acceptable final response to its previous request (function {}) had arrived",
+                                    dest, func, seq, written, prev.func
+                                ),
+                            ));
+                        }
+                    }
+                }
                 outstanding.insert(
                     *dest,
                     Req {
@@ -881,6 +909,28 @@ pub fn analyse(
                         "C15/fragment-delivered-to-wrong-handler",
                         kind,
                         format!("a fragment of read type {} (unsolicited: {}) of association {} was delivered to the {} handler", read_type, uns, assoc, if custom { "request's own" } else { "association's" }),
+                    ));
+                    break;
+                }
+            }
+        }
+    }
+    // what the user is told: success of a request only together with the successful end of a task of that association (the
+    // verdicts above are about that task end - a promise resolved with Ok on another path would escape them)
+    if violation.is_none() {
+        for (_, h) in &hist {
+            if let H::UserDone { t, id, ok: true, .. } = h {
+                let Some((_, addr, kind)) = run.user_kinds.iter().find(|u| u.0 == *id) else { continue };
+                if matches!(kind, UserKind::LinkStatus) {
+                    continue;
+                }
+                *counters.entry("probe.user_success_tied_to_task_success".to_string()).or_insert(0) += 1;
+                let backed = hist.iter().any(|(_, x)| matches!(x, H::TaskSuccess { t: ts, assoc, .. } if assoc == addr && ts == t));
+                if !backed {
+                    violation = Some(Violation::new(
+                        "C15/user-told-success-without-task-success",
+                        "",
+                        format!("user request {} ({:?}) to {} was reported successful at {} ms but no task of that association ended successfully then", id, kind, addr, t),
                     ));
                     break;
                 }
